@@ -106,10 +106,8 @@ pub fn render_oracle(data: &[u8]) -> Result<(), Viol> {
     // C02
     if !cfg.overflow && !cfg.no_link_wrap && w >= 1 && w <= 200 {
         if let Rend::Ok(s) = &r {
-            if !c02::kf_wide_href(html, w, &cfg) {
-                if let Some(l) = s.lines().find(|l| line_width(l) > w) {
-                    return Err(("C02", format!("line wider than width {}: {:?}", w, short(l, 200))));
-                }
+            if let Some(l) = s.lines().find(|l| line_width(l) > w) {
+                return Err(("C02", format!("line wider than width {}: {:?}", w, short(l, 200))));
             }
         }
     }
